@@ -84,7 +84,10 @@ func init() {
 		api := c.Bool()
 		maxDepth := 4
 		if c.Thorough {
-			maxDepth = 6
+			maxDepth = 5
+			if owner == 0 && api && pdd {
+				maxDepth = 6 // one declaration family goes one unit deeper
+			}
 		}
 		n := c.Choose(maxDepth + 1)
 		var argv []string
@@ -215,10 +218,10 @@ func init() {
 		ShardDepth: 3,
 		Body:       body,
 		Rule: "positional layouts: every sequence of 0..3 scalar fields over {string, int, Unmarshaler} (an int field at an odd position carries base:\"8\") x trailing slice {none, []string, []int} x owner {parser, command, both (the same layout on each)} x PassDoubleDash on/off x {tags, API} " +
-			"x every sequence of <= 4 (quick) / <= 6 (thorough) units over {w, 7, -3, 10, -v, -s val, --, -x, cmd, --str=q}; oracle = CLM positional queue (field values after conversion, overflow into remaining arguments); after every accepted vector the public Args() list must still be the declared one and, for layouts without a slice, a second parse of the same vector on the same parser must bind the same fields",
+			"x every sequence of <= 4 (quick) / <= 5 (thorough; <= 6 for parser-owned layouts built through the API with PassDoubleDash) units over {w, 7, -3, 10, -v, -s val, --, -x, cmd, --str=q}; oracle = CLM positional queue (field values after conversion, overflow into remaining arguments); after every accepted vector the public Args() list must still be the declared one and, for layouts without a slice, a second parse of the same vector on the same parser must bind the same fields",
 		Assumptions:  []string{"conversion of the alphabet's tokens is taken from the conversion model (checked against the library by C11)"},
 		RequiredHits: []string{"compared", "three-or-more-bound", "after-terminator", "conversion-fault", "second-parse"},
-		Bound:        [2]string{"all unit sequences of length <= 4", "all unit sequences of length <= 6"},
+		Bound:        [2]string{"all unit sequences of length <= 4", "all unit sequences of length <= 5 (<= 6 on one declaration family)"},
 		BudgetS:      [2]int{100, 1500},
 	})
 }
